@@ -13,7 +13,9 @@ I(n) == IntV(FromInt(n))
 S(s) == Str(s)
 ErrLeaf == Bin("/", Lit(I(1)), Lit(I(0)))
 Leaves == { Lit(I(1)), Lit(UintV(FromInt(1))), Lit(Fin(FALSE, <<3>>, -1)), Lit(Bool(TRUE)), Lit(Null), Lit(S(<<97>>)), Lit(Bytes(<<97>>)),
-            Lit(List(<<>>)), Lit(List(<<I(1)>>)), Lit(Map(<< <<S(<<97>>), I(1)>> >>)), Lit(Ts(Z)), Lit(Dur(MegaB)), Lit(Type("int")), ErrLeaf }
+            Lit(List(<<>>)), Lit(List(<<I(1)>>)), Lit(Map(<< <<S(<<97>>), I(1)>> >>)), Lit(Ts(Z)), Lit(Dur(MegaB)), Lit(Type("int")), ErrLeaf,
+            \* boundary values: results that leave the range of their type must be errors, not Python exceptions
+            Lit(IntV(IntMax(64))), Lit(IntV(IntMin(64))), Lit(UintV(UintMax(64))), Lit(Ts(TsMax)), Lit(Ts(TsMin)), Lit(Dur(DurLim)) }
 Few == { Lit(I(1)), Lit(S(<<97>>)) }
 X == Var("x")
 Fns1 == {"size", "int", "uint", "double", "string", "bytes", "bool", "type", "timestamp", "duration", "dyn", "getFullYear", "matches", "unknown_function"}
@@ -33,6 +35,8 @@ Roots ==
                                              as \in {<<>>, <<X>>, <<X, X, X>>, <<X, X, X, X>>, <<Lit(I(1)), X>>, <<Sel(X, <<97>>), X>>} }
   \cup { Call("has", as) : as \in {<<>>, <<X>>, <<Lit(I(1))>>, <<Sel(X, <<97>>), X>>, <<Idx(X, Lit(I(0)))>>} }
   \cup { Call("dyn", as) : as \in {<<>>, <<X, X>>} }
+  \cup { Var(n) : n \in HostileIdents } \cup { Bin("+", Var(n), Lit(I(1))) : n \in HostileIdents }
+  \cup { Macro("map", Lit(List(<<I(1)>>)), n, Var(n)) : n \in HostileIdents } \cup { Sel(Lit(Map(<< <<S(<<97>>), I(1)>> >>)), <<97>>) : n \in {1} }
   \cup { ListE(<<a, b>>) : a \in Leaves, b \in Few } \cup { MapE(<< <<a, b>> >>) : a \in Leaves, b \in Few } \cup { MapE(<< <<b, a>> >>) : a \in Leaves, b \in Few }
 Alphabet == { Syn!Id("a"), Syn!Lit("1"), Syn!Lit("true"), Syn!P("("), Syn!P(")"), Syn!P("["), Syn!P("]"), Syn!P("{"), Syn!P("}"), Syn!P("."), Syn!P(","),
               Syn!P("?"), Syn!P(":"), Syn!P("+"), Syn!P("-"), Syn!P("!"), Syn!P("&&"), Syn!P("=="), Syn!P("in") }
